@@ -121,6 +121,21 @@ theorem verify_reads_only_authenticated_fields :
       "compareTx: ChainId,Data,ExtraData,Hash,Nonce,Source,Target,Type",
       "GenHash: ChainId,Data,ExtraData,Nonce,Source,Target,Time,Type"] := rfl
 
+/-- The fixed-width serialisations the model pads inside itself (`getIDInput`, `Sign.bytes`,
+    `toAddress`, `bytesToSign`): `GetID` copies each coordinate right-aligned into its 32-byte
+    slot, `Sign.Bytes` does the same for r and s, `Address.SetBytes` keeps the last 20 bytes,
+    `BytesToSign` splits 32/32/1. A changed padding breaks this obligation (and `addr` ops). -/
+theorem padding_shape :
+    getIDBody = ["x := pk.PubKey.X.Bytes()", "y := pk.PubKey.Y.Bytes()", "digest := make([]byte, 64)",
+      "copy(digest[32-len(x):], x)", "copy(digest[64-len(y):], y)", "d := sha3.NewKeccak256()",
+      "d.Write(digest)", "hash := d.Sum(nil)", "return hash"] ∧
+    getAddressBody = ["addrBuf := pk.GetID()", "return BytesToAddress(addrBuf[:])"] ∧
+    addressSetBytesBody = ["if len(b) > len(a) { b = b[len(b)-AddressLength:] }", "copy(a[:], b[:])"] ∧
+    signBytesBody = ["rb := s.r.Bytes()", "sb := s.s.Bytes()", "r := make([]byte, SignLength)",
+      "copy(r[32-len(rb):32], rb)", "copy(r[64-len(sb):64], sb)", "r[64] = s.recid", "return r"] ∧
+    bytesToSignBody = ["if len(b) == 65 { var r, s big.Int br := b[:32] r = *r.SetBytes(br) sr := b[32:64] s = *s.SetBytes(sr) recid := b[64] return &Sign{r, s, recid} } else { return nil }"] :=
+  ⟨rfl, rfl, rfl, rfl, rfl⟩
+
 theorem signer_call_order :
     eip155SenderCalls = ["tx.Protected", "HomesteadSigner{}.Sender", "tx.ChainId().Cmp", "tx.ChainId",
       "new(big.Int).Sub", "new", "V.Sub", "recoverPlain", "s.Hash"] ∧
